@@ -564,6 +564,7 @@ def rule_h_per_thread_reduction(ctx, fns):
                     elif r2 is not None and r2.startswith("this."):
                         fields.setdefault(f.cls, set()).add(r2)
     n = 0
+    role = {}  # (class, field container) -> {"reduce": node, "reset": node}: complete loops outside regions that sum / zero the slots
     for f in fns:
         if f.body is None:
             continue
@@ -646,6 +647,36 @@ def rule_h_per_thread_reduction(ctx, fns):
                         det += "; left early by a %s at line %d" % (early[0].k, early[0].line)
                 ctx.ob("C18.h-per-thread-reduction-complete", fid, "loop-over:%s@%d" % (shown(X), _ordinal([l for l in f.walk() if l.k == lp.k], lp)), ok, lp.where(), ("visits every slot of %s: " % shown(X)) + det if ok else "%s is not walked completely: %s" % (shown(X), det))
                 n += 1
+                if ok and X.startswith("this."):
+                    for m in body.walk():
+                        if m.k in ("CompoundAssignOperator", "CXXOperatorCallExpr") and m.op == "+=" and len(m.c) == 2 and any(_subscript_root_and_index(x)[0] == X for x in m.c[1].walk()):
+                            role.setdefault((f.cls, X), {}).setdefault("reduce", m)
+                        if m.k == "CXXMemberCallExpr" and (m.callee or "").split("::")[-1] == "fill" and m.call_args() and key(m.call_args()[-1].strip()) in ("0", "0.0") and m.call_object() is not None and any(_subscript_root_and_index(x)[0] == X or (x.k == "CXXMemberCallExpr" and (x.callee or "").endswith("::at") and x.c and root_of_lvalue(x.c[0].strip()) == X) for x in m.call_object().walk()):
+                            role.setdefault((f.cls, X), {}).setdefault("reset", m)
+        # 2c. a slot of a per-thread container that OUTLIVES the region (a field of the object: it is filled by one call and summed by
+        #     another) is never (re)set to zero from inside a parallel region by "its own" thread: the team of this region can be
+        #     smaller than the team that filled the slots, and the slots of the missing threads would keep their old contents.
+        #     (Allocation of an empty slot on first use is not a reset.)
+        for m in f.walk():
+            if not (m.is_call() and (m.callee or "").split("::")[-1] in ("fill", "fill_n") and in_region(m)):
+                continue
+            obj_ = m.call_object() if m.k == "CXXMemberCallExpr" else None
+            if obj_ is None:
+                continue
+            X = None
+            for x in obj_.walk():
+                r, i = _subscript_root_and_index(x)
+                if r in fields.get(f.cls, set()):
+                    X = r
+                    break
+            if X is None:
+                continue
+            a = m.call_args()
+            zero = bool(a) and key(a[-1].strip()) in ("0", "0.0")
+            if not zero:
+                continue
+            ctx.ob("C18.h-per-thread-reduction-complete", fid, "reset-in-region:%s@%d" % (shown(X), m.line), False, m.where(), "%s outlives the parallel region (it is a member that another call sums over all slots), but here every thread of THIS region resets only its own slot: slots filled by an earlier, larger team keep their contents and are added to every later result" % shown(X))
+            n += 1
         # 2b. std::accumulate / std::for_each over the container
         for c in f.calls():
             if c.callee in ("std::accumulate", "std::for_each", "std::fill") and not in_region(c) and len(c.call_args()) >= 2:
@@ -656,6 +687,14 @@ def rule_h_per_thread_reduction(ctx, fns):
                 ok = a0 in (X + ".begin()", X + ".cbegin()") and a1 in (X + ".end()", X + ".cend()")
                 ctx.ob("C18.h-per-thread-reduction-complete", fid, "%s-over:%s@%d" % (c.callee.split("::")[-1], shown(X), _ordinal([x for x in f.calls() if x.callee == c.callee], c)), ok, c.where(), "%s(%s, %s, ...)" % (c.callee, a0, a1))
                 n += 1
+    # 3. a member container whose slots one call sums (outside a region, all slots) is zeroed the same way before a new accumulation:
+    #    some complete loop outside a region zero-fills every slot.  Without it the slots keep the previous result.
+    for (cls, X), rr in sorted(role.items()):
+        if "reduce" not in rr:
+            continue
+        ok = "reset" in rr
+        ctx.ob("C18.h-per-thread-reduction-complete", cls, "reset-of:%s" % X.replace("this.", ""), ok, (rr.get("reset") or rr["reduce"]).where(), "the slots that %s sums are zero-filled, all of them, by a loop outside any parallel region" % rr["reduce"].where() if ok else "the slots summed at %s are never zero-filled by a loop over all of them outside a parallel region: a new accumulation starts from the previous contents" % rr["reduce"].where())
+        n += 1
     return n
 
 
